@@ -125,4 +125,9 @@ recomputed from /repo on every run (tools/extract/skeleton.go), so any change to
 theorem mode_sources_as_transcribed : Crv.Generated.skeletonMode = Crv.Skeleton.expectedMode :=
   Crv.Skeleton.mode_sources_as_transcribed
 
+/-- The hand-written `Loader` model this property rests on was transcribed from exactly these sources: the fingerprints are
+recomputed from /repo on every run (tools/extract/skeleton.go), so any change to one of the functions breaks this obligation. -/
+theorem loader_sources_as_transcribed : Crv.Generated.skeletonLoader = Crv.Skeleton.expectedLoader :=
+  Crv.Skeleton.loader_sources_as_transcribed
+
 end Crv.Props.C01
